@@ -54,17 +54,26 @@ Definition C02_eval_twice_full : Prop :=
 
 (* ================================================================================================
    Extension round: the "no effect on values" clause at full strength (proofs/C02Ren.v, C02Sim.v,
-   C02Ops.v, C02Twice.v, C02Let.v).
+   C02Ops.v, C02Keep.v, C02Twice.v, C02Let.v).
 
    [same_up_to_cells v1 v2]: the two values are the same tree except for the indices of function
    cells (erase = rename every index to 0); [osame] lifts it to outcomes (same class; Ok payloads
    related).  Value::equals cannot tell such values apart ([C02_equals_blind_to_cells]).
-   [cfg_wf c]: the scope chain mentions only cells that exist.  [old_names_kept st st1]: the first
-   evaluation gave no name to a cell that existed before it; without it the statement is FALSE in
-   the model and on the real interpreter (finding F52, [C02_eval_twice_unconditional_refuted]).
+   [cfg_wf c]: the scope chain mentions only cells that exist.
+   [store_keep st st1]: the store grew and every cell of st has in st1 exactly the name (or no name) it had.
+
+   History: on the code as pinned before repo fix F52 an assignment named ANY unnamed lambda it was handed,
+   so an expression could name a cell that existed before it (`do { y = fs[0]; .. }`), and evaluating
+   [fs[0](1), do { y = fs[0]; return 0 }] twice gave [6, 0] and then an error (known/C02.json F52; the model of
+   that code refuted the unconditional statement, lemma C02_eval_twice_unconditional_refuted of the previous
+   revision of this file).  The eval-twice theorems then carried the hypothesis [old_names_kept].  With the
+   repair (an assignment names a lambda only if evaluating its right-hand side created it; Env.name_if_created,
+   Eval.bind_value) evaluation never writes to an existing cell ([C02_old_cells_untouched]) and the hypothesis is
+   gone; the old statements are kept as corollaries ([.._names_kept]).
    ================================================================================================ *)
 From Coq Require Import Lia.
-Require Import Blots.proofs.C02Ren Blots.proofs.C02Sim Blots.proofs.C02Ops Blots.proofs.C02Twice.
+Require Import Blots.EvalFull.
+Require Import Blots.proofs.C02Ren Blots.proofs.C02Sim Blots.proofs.C02Ops Blots.proofs.C02Keep Blots.proofs.C02Twice.
 
 (* STORE-EXTENSION INVARIANCE: for every injective renaming rho of cell indices and stores related by
    it, every expression (assignments included), every depth: the renamed configuration gives the
@@ -90,25 +99,34 @@ Proof. exact ops_commute_inst. Qed.
 Check C02_ops_commute_evaluator : ops_commute binop_impl builtin_impl.
 Print Assumptions C02_ops_commute_evaluator.
 
+(* NO EVALUATION WRITES TO A CELL THAT EXISTED BEFORE IT (any expression, assignments and failures included;
+   also for the full built-in dispatcher): the heap is append-only in the strict sense *)
+Theorem C02_old_cells_untouched : forall release d c e r c',
+  evalD release binop_impl builtin_impl d c e = (r, c') -> store_keep (fst c) (fst c').
+Proof. exact evalD_store_keep. Qed.
+Check C02_old_cells_untouched : forall release d c e r c',
+  evalD release binop_impl builtin_impl d c e = (r, c') -> store_keep (fst c) (fst c').
+Print Assumptions C02_old_cells_untouched.
+Theorem C02_old_cells_untouched_full : forall release d c e r c',
+  evalD release binop_impl builtin_full d c e = (r, c') -> store_keep (fst c) (fst c').
+Proof. exact evalD_store_keep_full. Qed.
+Check C02_old_cells_untouched_full : forall release d c e r c',
+  evalD release binop_impl builtin_full d c e = (r, c') -> store_keep (fst c) (fst c').
+Print Assumptions C02_old_cells_untouched_full.
+
 (* EVAL-TWICE, exact form: the second outcome is the first with the cells of the first run moved up
    by the number of cells the first run allocated; older cells keep their index *)
 Theorem C02_eval_twice_exact : forall release d e st fr r1 st1 fr1,
   no_assign e = true -> frames_lt (length st) fr = true ->
   evalD release binop_impl builtin_impl d (st, fr) e = (r1, (st1, fr1)) ->
-  old_names_kept st st1 ->
   fr1 = fr /\
   exists st2, evalD release binop_impl builtin_impl d (st1, fr) e =
                 (oren (shift (length st) (length st1 - length st)) r1, (st2, fr)) /\
               sinv (shift (length st) (length st1 - length st)) st1 st2.
-Proof.
-  intros release d e st fr r1 st1 fr1 Hna Hwf HA Hk.
-  pose proof (C02_store_only_grows release d (st, fr) e r1 (st1, fr1) HA) as [Hlen _].
-  exact (eval_twice_shift release binop_impl builtin_impl ops_commute_inst d e st fr r1 st1 fr1 Hna Hwf HA Hlen Hk).
-Qed.
+Proof. exact eval_twice_shift_uncond. Qed.
 Check C02_eval_twice_exact : forall release d e st fr r1 st1 fr1,
   no_assign e = true -> frames_lt (length st) fr = true ->
   evalD release binop_impl builtin_impl d (st, fr) e = (r1, (st1, fr1)) ->
-  old_names_kept st st1 ->
   fr1 = fr /\
   exists st2, evalD release binop_impl builtin_impl d (st1, fr) e =
                 (oren (shift (length st) (length st1 - length st)) r1, (st2, fr)) /\
@@ -119,53 +137,76 @@ Print Assumptions C02_eval_twice_exact.
    scope chain untouched both times *)
 Theorem C02_eval_twice : forall release d e c r1 c1 r2 c2,
   no_assign e = true -> cfg_wf c = true ->
-  evalD release binop_impl builtin_impl d c e = (r1, c1) -> old_names_kept (fst c) (fst c1) ->
+  evalD release binop_impl builtin_impl d c e = (r1, c1) ->
   evalD release binop_impl builtin_impl d c1 e = (r2, c2) ->
   osame r1 r2 /\ snd c2 = snd c /\ snd c1 = snd c.
-Proof. exact eval_twice_inst. Qed.
+Proof. exact eval_twice_inst_uncond. Qed.
 Check C02_eval_twice : forall release d e c r1 c1 r2 c2,
   no_assign e = true -> cfg_wf c = true ->
-  evalD release binop_impl builtin_impl d c e = (r1, c1) -> old_names_kept (fst c) (fst c1) ->
+  evalD release binop_impl builtin_impl d c e = (r1, c1) ->
   evalD release binop_impl builtin_impl d c1 e = (r2, c2) ->
   osame r1 r2 /\ snd c2 = snd c /\ snd c1 = snd c.
 Print Assumptions C02_eval_twice.
-
-(* ... unconditionally when every existing function cell already has a name *)
-Theorem C02_eval_twice_all_named : forall release d e c r1 c1 r2 c2,
-  no_assign e = true -> cfg_wf c = true -> all_named (fst c) ->
-  evalD release binop_impl builtin_impl d c e = (r1, c1) ->
-  evalD release binop_impl builtin_impl d c1 e = (r2, c2) ->
-  osame r1 r2 /\ snd c2 = snd c /\ snd c1 = snd c.
-Proof. exact eval_twice_inst_named. Qed.
-Check C02_eval_twice_all_named : forall release d e c r1 c1 r2 c2,
-  no_assign e = true -> cfg_wf c = true -> all_named (fst c) ->
-  evalD release binop_impl builtin_impl d c e = (r1, c1) ->
-  evalD release binop_impl builtin_impl d c1 e = (r2, c2) ->
-  osame r1 r2 /\ snd c2 = snd c /\ snd c1 = snd c.
-Print Assumptions C02_eval_twice_all_named.
 
 (* in terms of the language's own equality: the second result equals the first exactly when the
    first equals itself (it does not when it holds a NaN: `.==` is IEEE on numbers) *)
 Theorem C02_eval_twice_equals : forall release d e c v1 c1 v2 c2,
   no_assign e = true -> cfg_wf c = true ->
-  evalD release binop_impl builtin_impl d c e = (Ok v1, c1) -> old_names_kept (fst c) (fst c1) ->
+  evalD release binop_impl builtin_impl d c e = (Ok v1, c1) ->
   evalD release binop_impl builtin_impl d c1 e = (Ok v2, c2) ->
   equals v1 v2 = equals v1 v1.
-Proof. exact eval_twice_inst_equals. Qed.
+Proof. exact eval_twice_equals_uncond. Qed.
 Check C02_eval_twice_equals : forall release d e c v1 c1 v2 c2,
+  no_assign e = true -> cfg_wf c = true ->
+  evalD release binop_impl builtin_impl d c e = (Ok v1, c1) ->
+  evalD release binop_impl builtin_impl d c1 e = (Ok v2, c2) ->
+  equals v1 v2 = equals v1 v1.
+Print Assumptions C02_eval_twice_equals.
+
+(* the same for the evaluator with EVERY transcribed built-in, relative to the one hypothesis still kept as a
+   Prop for it ([C02_ops_commute_full] below); the naming side condition is discharged there too *)
+Theorem C02_eval_twice_full_dispatcher : ops_commute binop_impl builtin_full ->
+  forall release d e c r1 c1 r2 c2,
+  no_assign e = true -> cfg_wf c = true ->
+  evalD release binop_impl builtin_full d c e = (r1, c1) ->
+  evalD release binop_impl builtin_full d c1 e = (r2, c2) ->
+  osame r1 r2 /\ snd c2 = snd c /\ snd c1 = snd c.
+Proof. exact eval_twice_full_dispatcher. Qed.
+Check C02_eval_twice_full_dispatcher : ops_commute binop_impl builtin_full ->
+  forall release d e c r1 c1 r2 c2,
+  no_assign e = true -> cfg_wf c = true ->
+  evalD release binop_impl builtin_full d c e = (r1, c1) ->
+  evalD release binop_impl builtin_full d c1 e = (r2, c2) ->
+  osame r1 r2 /\ snd c2 = snd c /\ snd c1 = snd c.
+Print Assumptions C02_eval_twice_full_dispatcher.
+
+(* the statements of the previous revision (hypothesis old_names_kept / all_named), now corollaries *)
+Corollary C02_eval_twice_names_kept : forall release d e c r1 c1 r2 c2,
+  no_assign e = true -> cfg_wf c = true ->
+  evalD release binop_impl builtin_impl d c e = (r1, c1) -> old_names_kept (fst c) (fst c1) ->
+  evalD release binop_impl builtin_impl d c1 e = (r2, c2) ->
+  osame r1 r2 /\ snd c2 = snd c /\ snd c1 = snd c.
+Proof. intros release d e c r1 c1 r2 c2 Hna Hwf HA _ HB. exact (C02_eval_twice release d e c r1 c1 r2 c2 Hna Hwf HA HB). Qed.
+Corollary C02_eval_twice_all_named : forall release d e c r1 c1 r2 c2,
+  no_assign e = true -> cfg_wf c = true -> all_named (fst c) ->
+  evalD release binop_impl builtin_impl d c e = (r1, c1) ->
+  evalD release binop_impl builtin_impl d c1 e = (r2, c2) ->
+  osame r1 r2 /\ snd c2 = snd c /\ snd c1 = snd c.
+Proof. intros release d e c r1 c1 r2 c2 Hna Hwf _ HA HB. exact (C02_eval_twice release d e c r1 c1 r2 c2 Hna Hwf HA HB). Qed.
+Corollary C02_eval_twice_equals_names_kept : forall release d e c v1 c1 v2 c2,
   no_assign e = true -> cfg_wf c = true ->
   evalD release binop_impl builtin_impl d c e = (Ok v1, c1) -> old_names_kept (fst c) (fst c1) ->
   evalD release binop_impl builtin_impl d c1 e = (Ok v2, c2) ->
   equals v1 v2 = equals v1 v1.
-Print Assumptions C02_eval_twice_equals.
+Proof. intros release d e c v1 c1 v2 c2 Hna Hwf HA _ HB. exact (C02_eval_twice_equals release d e c v1 c1 v2 c2 Hna Hwf HA HB). Qed.
 
 Theorem C02_equals_blind_to_cells : forall rho1 rho2 a b, equals (ren rho1 a) (ren rho2 b) = equals a b.
 Proof. exact equals_ren2. Qed.
 Check C02_equals_blind_to_cells : forall rho1 rho2 a b, equals (ren rho1 a) (ren rho2 b) = equals a b.
 Print Assumptions C02_equals_blind_to_cells.
 
-(* ---- the statement kept above as [C02_eval_twice_full] is false as written, for two reasons ---- *)
-(* (a) a NaN result is not `equals` to itself *)
+(* ---- the statement kept above as [C02_eval_twice_full] is false as written: a NaN result is not
+   `equals` to itself (the right statement is C02_eval_twice / C02_eval_twice_equals) ---- *)
 Lemma C02_eval_twice_full_refuted : ~ C02_eval_twice_full.
 Proof.
   intros H.
@@ -174,23 +215,23 @@ Proof.
   vm_compute in H. discriminate H.
 Qed.
 
-(* (b) finding F52 (known/C02.json): after `fs = [x => x + y]; y = 5`, the expression
+(* ---- finding F52, repaired: after `fs = [x => x + y]; y = 5`, the expression
        [fs[0](1), do { y = fs[0]; return 0 }]
-   succeeds the first time and fails the second time: the do-block names the (until then unnamed)
-   cell of fs[0] "y"; from then on calling it binds y to the function itself, which shadows the y
-   its body used to find in the caller's chain. *)
+   used to succeed the first time and fail the second time (the do-block named the cell of fs[0] "y"; a named
+   function is bound to its own name when called, which shadowed the y its body found in the caller's chain).
+   With the repaired rule the cell stays anonymous and both evaluations give [6, 0]. ---- *)
 Definition F52_lam : value := VLam 0 [AReq "x"] (EBin Add (EId "x") (EId "y")) [].
 Definition F52_cfg : cfg := ([None], [(FOwned, [("y", VNum (num_of_Z 5)); ("fs", VList [F52_lam])])]).
 Definition F52_expr : expr :=
   EList [Cm [] (ECall (EAccess (EId "fs") (ENum (num_of_Z 0))) [ENum (num_of_Z 1)]) None;
          Cm [] (EDo [Cm [] (EAssign "y" (EAccess (EId "fs") (ENum (num_of_Z 0)))) None]
                     (Cm [] (ENum (num_of_Z 0)) None)) None].
-Lemma C02_eval_twice_unconditional_refuted :
+Example C02_F52_repaired :
   let r1 := evalD true binop_impl builtin_impl 3 F52_cfg F52_expr in
   let r2 := evalD true binop_impl builtin_impl 3 (snd r1) F52_expr in
   no_assign F52_expr = true /\ cfg_wf F52_cfg = true /\
-  is_ok (fst r1) = true /\ fst r2 = Err /\
-  lam_name (fst F52_cfg) 0 = None /\ lam_name (fst (snd r1)) 0 = Some "y".
+  fst r1 = Ok (VList [VNum (num_of_Z 6); VNum (num_of_Z 0)]) /\ fst r2 = fst r1 /\
+  lam_name (fst F52_cfg) 0 = None /\ lam_name (fst (snd r1)) 0 = None.
 Proof. vm_compute. repeat split. Qed.
 
 (* ---- the hypotheses are satisfiable on non-trivial programs ---- *)
@@ -204,15 +245,14 @@ Definition ex_expr : expr :=
          Cm [] (ELam [AReq "k"] (ECall (EId "f") [EId "k"])) None;
          Cm [] (EBin Via (EId "l") (ELam [AReq "z"] (EId "z"))) None].
 Example C02_eval_twice_example :
-  no_assign ex_expr = true /\ cfg_wf ex_cfg = true /\ all_named (fst ex_cfg) /\
+  no_assign ex_expr = true /\ cfg_wf ex_cfg = true /\
   let r1 := evalD true binop_impl builtin_impl 5 ex_cfg ex_expr in
   let r2 := evalD true binop_impl builtin_impl 5 (snd r1) ex_expr in
   is_ok (fst r1) = true /\ length (fst (snd r1)) = 3 /\ length (fst (snd r2)) = 5 /\
   fst r1 <> fst r2 /\ osame (fst r1) (fst r2).
 Proof.
-  split; [reflexivity|split; [reflexivity|split]].
-  - intros [|id] Hid; [discriminate|cbn in Hid; lia].
-  - vm_compute. repeat split. intros H; discriminate H.
+  split; [reflexivity|split; [reflexivity|]].
+  vm_compute. repeat split. intros H; discriminate H.
 Qed.
 
 (* ---- LET-ABSTRACTION (proofs/C02Let.v) ----
@@ -227,17 +267,17 @@ Theorem C02_let_abstraction_head_partial : forall release d x s st st1 fr v eA e
   frames_lt (length st) fr = true ->
   evalD release binop_impl builtin_impl d (st, fr) (EId x) = (Ok v, (st, fr)) ->
   evalD release binop_impl builtin_impl d (st, fr) s = (Ok v, (st1, fr)) ->
-  cell_free v = true -> old_names_kept st st1 ->
+  cell_free v = true ->
   hctx x s eA eB ->
   evalD release binop_impl builtin_impl d (st, fr) eA = (rA, cA) ->
   evalD release binop_impl builtin_impl d (st, fr) eB = (rB, cB) ->
   osame rA rB.
-Proof. exact let_abstraction_head_inst. Qed.
+Proof. exact let_abstraction_head_uncond. Qed.
 Check C02_let_abstraction_head_partial : forall release d x s st st1 fr v eA eB rA cA rB cB,
   frames_lt (length st) fr = true ->
   evalD release binop_impl builtin_impl d (st, fr) (EId x) = (Ok v, (st, fr)) ->
   evalD release binop_impl builtin_impl d (st, fr) s = (Ok v, (st1, fr)) ->
-  cell_free v = true -> old_names_kept st st1 ->
+  cell_free v = true ->
   hctx x s eA eB ->
   evalD release binop_impl builtin_impl d (st, fr) eA = (rA, cA) ->
   evalD release binop_impl builtin_impl d (st, fr) eB = (rB, cB) ->
@@ -248,7 +288,6 @@ Definition C02_let_abstraction_full : Prop := let_abstraction_full_stmt.
 
 (* kept, not proved: the operator / built-in hypothesis for the FULL built-in dispatcher (EvalFull.v);
    every theorem above that is generic in [ops_commute] holds for it as soon as this does *)
-Require Import Blots.EvalFull.
 Definition C02_ops_commute_full : Prop := ops_commute binop_impl builtin_full.
 
 (* the hypotheses of the let-abstraction theorem on a non-trivial program:
@@ -301,10 +340,11 @@ Check C02_store_extension_invariance_full : forall release rho, (forall a b : na
                 sinv rho sA' sB'.
 Print Assumptions C02_store_extension_invariance_full.
 
+(* with the repaired naming rule (F52) there is no side condition on names: [C02_eval_twice_full_dispatcher]
+   above, with its hypothesis discharged *)
 Theorem C02_eval_twice_exact_full : forall release d e st fr r1 st1 fr1,
   no_assign e = true -> frames_lt (length st) fr = true ->
   evalD release binop_impl builtin_full d (st, fr) e = (r1, (st1, fr1)) ->
-  old_names_kept st st1 ->
   fr1 = fr /\
   exists st2, evalD release binop_impl builtin_full d (st1, fr) e =
                 (oren (shift (length st) (length st1 - length st)) r1, (st2, fr)) /\
@@ -313,7 +353,6 @@ Proof. exact eval_twice_exact_full. Qed.
 Check C02_eval_twice_exact_full : forall release d e st fr r1 st1 fr1,
   no_assign e = true -> frames_lt (length st) fr = true ->
   evalD release binop_impl builtin_full d (st, fr) e = (r1, (st1, fr1)) ->
-  old_names_kept st st1 ->
   fr1 = fr /\
   exists st2, evalD release binop_impl builtin_full d (st1, fr) e =
                 (oren (shift (length st) (length st1 - length st)) r1, (st2, fr)) /\
@@ -322,39 +361,26 @@ Print Assumptions C02_eval_twice_exact_full.
 
 Theorem C02_eval_twice_fullbi : forall release d e c r1 c1 r2 c2,
   no_assign e = true -> cfg_wf c = true ->
-  evalD release binop_impl builtin_full d c e = (r1, c1) -> old_names_kept (fst c) (fst c1) ->
+  evalD release binop_impl builtin_full d c e = (r1, c1) ->
   evalD release binop_impl builtin_full d c1 e = (r2, c2) ->
   osame r1 r2 /\ snd c2 = snd c /\ snd c1 = snd c.
 Proof. exact eval_twice_full. Qed.
 Check C02_eval_twice_fullbi : forall release d e c r1 c1 r2 c2,
   no_assign e = true -> cfg_wf c = true ->
-  evalD release binop_impl builtin_full d c e = (r1, c1) -> old_names_kept (fst c) (fst c1) ->
+  evalD release binop_impl builtin_full d c e = (r1, c1) ->
   evalD release binop_impl builtin_full d c1 e = (r2, c2) ->
   osame r1 r2 /\ snd c2 = snd c /\ snd c1 = snd c.
 Print Assumptions C02_eval_twice_fullbi.
 
-Theorem C02_eval_twice_all_named_fullbi : forall release d e c r1 c1 r2 c2,
-  no_assign e = true -> cfg_wf c = true -> all_named (fst c) ->
-  evalD release binop_impl builtin_full d c e = (r1, c1) ->
-  evalD release binop_impl builtin_full d c1 e = (r2, c2) ->
-  osame r1 r2 /\ snd c2 = snd c /\ snd c1 = snd c.
-Proof. exact eval_twice_full_named. Qed.
-Check C02_eval_twice_all_named_fullbi : forall release d e c r1 c1 r2 c2,
-  no_assign e = true -> cfg_wf c = true -> all_named (fst c) ->
-  evalD release binop_impl builtin_full d c e = (r1, c1) ->
-  evalD release binop_impl builtin_full d c1 e = (r2, c2) ->
-  osame r1 r2 /\ snd c2 = snd c /\ snd c1 = snd c.
-Print Assumptions C02_eval_twice_all_named_fullbi.
-
 Theorem C02_eval_twice_equals_fullbi : forall release d e c v1 c1 v2 c2,
   no_assign e = true -> cfg_wf c = true ->
-  evalD release binop_impl builtin_full d c e = (Ok v1, c1) -> old_names_kept (fst c) (fst c1) ->
+  evalD release binop_impl builtin_full d c e = (Ok v1, c1) ->
   evalD release binop_impl builtin_full d c1 e = (Ok v2, c2) ->
   equals v1 v2 = equals v1 v1.
 Proof. exact eval_twice_full_equals. Qed.
 Check C02_eval_twice_equals_fullbi : forall release d e c v1 c1 v2 c2,
   no_assign e = true -> cfg_wf c = true ->
-  evalD release binop_impl builtin_full d c e = (Ok v1, c1) -> old_names_kept (fst c) (fst c1) ->
+  evalD release binop_impl builtin_full d c e = (Ok v1, c1) ->
   evalD release binop_impl builtin_full d c1 e = (Ok v2, c2) ->
   equals v1 v2 = equals v1 v1.
 Print Assumptions C02_eval_twice_equals_fullbi.
@@ -363,7 +389,7 @@ Theorem C02_let_abstraction_head_partial_fullbi : forall release d x s st st1 fr
   frames_lt (length st) fr = true ->
   evalD release binop_impl builtin_full d (st, fr) (EId x) = (Ok v, (st, fr)) ->
   evalD release binop_impl builtin_full d (st, fr) s = (Ok v, (st1, fr)) ->
-  cell_free v = true -> old_names_kept st st1 ->
+  cell_free v = true ->
   hctx x s eA eB ->
   evalD release binop_impl builtin_full d (st, fr) eA = (rA, cA) ->
   evalD release binop_impl builtin_full d (st, fr) eB = (rB, cB) ->
@@ -373,7 +399,7 @@ Check C02_let_abstraction_head_partial_fullbi : forall release d x s st st1 fr v
   frames_lt (length st) fr = true ->
   evalD release binop_impl builtin_full d (st, fr) (EId x) = (Ok v, (st, fr)) ->
   evalD release binop_impl builtin_full d (st, fr) s = (Ok v, (st1, fr)) ->
-  cell_free v = true -> old_names_kept st st1 ->
+  cell_free v = true ->
   hctx x s eA eB ->
   evalD release binop_impl builtin_full d (st, fr) eA = (rA, cA) ->
   evalD release binop_impl builtin_full d (st, fr) eB = (rB, cB) ->
